@@ -228,7 +228,7 @@ class Sym:
                 v = env["locals"].get(pe[1])
                 if v is None and 1 <= pe[1] <= self.nparams:
                     v = ("param", pe[1])
-                if v is not None and v[0] in ("call", "const", "cpath", "bin", "cast", "field", "variant", "load", "param", "index", "cindex"):
+                if v is not None and v[0] in ("call", "const", "cpath", "bin", "cast", "field", "variant", "load", "param", "index", "cindex", "ref"):
                     # shared reference to a temporary holding a known value
                     return ("ref", False, ("val", v))
             return ("ref", s["bk"] == "mut", pe)
